@@ -33,6 +33,9 @@ def ws2dgu(y, lmda, nodata, out):
         n = np.sum(w)
 
         if n > 1:
+            # missing cells carry no weight: keep their placeholder (possibly NaN / inf,
+            # for which 0 * y is not 0) out of the arithmetic
+            y = np.where(w == 0, 0.0, y)
             z = ws2d(y, lmda, w)
             np.round(z, 0, out)
         else:
